@@ -128,7 +128,9 @@ AllMuts == {"trunc_before", "trunc_before_fix", "trunc_inside", "trunc_inside_fi
             "count_0", "count_p1", "count_max",
             "tag_unknown", "val_0", "val_max", "dup", "dup_fill", "dup_fill_empty", "empty",
             "list_plus1", "list_minus1", "swap", "nest",
-            "seq_m1", "seq_p1", "seq_p2", "seq_p32768", "seq_half"}
+            "seq_m1", "seq_p1", "seq_p2", "seq_p32768", "seq_half",
+            "lst_empty_mid", "lst_lead", "lst_trail", "lst_only_sep", "lst_multibyte", "lst_multibyte_first",
+            "lst_prefix_only", "lst_many", "lst_long"}
 
 Applicable(l, m) ==
   IF l.k \in TextKinds
@@ -138,6 +140,12 @@ Applicable(l, m) ==
          [] m = "tag_unknown" -> l.k = "word"
          [] m \in {"dup", "dup_fill", "swap"} -> l.k = "line"
          [] m = "empty" -> l.k \in {"text", "num", "word"}                   \* empty token
+         \* separator-structured values: an empty element (doubled / leading / trailing separator, the separator
+         \* alone), an element that is one multi-byte character or starts with one, an element that is only the
+         \* prefix character, ten thousand elements, one very long element
+         [] m \in {"lst_empty_mid", "lst_lead", "lst_trail", "lst_only_sep", "lst_multibyte", "lst_multibyte_first",
+                   "lst_many", "lst_long"} -> l.ls # ""
+         [] m = "lst_prefix_only" -> l.ls # "" /\ l.px # ""
          [] OTHER -> FALSE
   ELSE CASE m \in {"trunc_before", "trunc_before_fix"} -> ~l.ov /\ ~l.tail
          [] m \in {"trunc_inside", "trunc_inside_fix"} -> ~l.ov /\ ~l.tail /\ (l.w >= 2 \/ l.k \in {"var", "rest"})
